@@ -405,15 +405,8 @@ Notation L1 := (lower1 (e_lower E)).
 Definition structure_of (r : parsed) : TextFile.str := structure (map label_str (p_base r)).
 Definition r_supported (r : parsed) : bool := forallb supported_label' (p_base r).
 
-(* the base structures the guesser keeps, in file order *)
-Definition loaded_bases (t : trained A) : list (P A * list TextFile.str) :=
-  map (fun l => (a_div R (snd l) (skip_total (a_one R) (a_sub R) (base_file R t)),
-                 Loader.insert_caps (toks (e_isalpha E) (fst l))))
-      (filter (nonM (e_isalpha E)) (base_file R t)).
-
-(* the loader does not divide by zero: P(M) is not 1 *)
-Definition no_zero_div (t : trained A) : Prop :=
-  a_eqb R (skip_total (a_one R) (a_sub R) (base_file R t)) (a_zero R) = false.
+Notation loaded_bases := (PipelineSpec.loaded_bases R E).
+Notation no_zero_div := (PipelineSpec.no_zero_div R).
 
 Lemma base_file_keys o raw rs k :
   In k (map fst (base_file R (trained_of E o raw rs))) ->
